@@ -42,11 +42,26 @@ def load_known():
     return json.load(open(p)).get("findings", [])
 
 
-def match_known(prop, gname, witness, known):
+def _source_line(fkey, line):
+    try:
+        from .repo import repo_root
+        return (repo_root() / fkey.split("::")[0]).read_text().splitlines()[line - 1]
+    except Exception:  # noqa: BLE001
+        return ""
+
+
+def match_known(prop, gname, witness, known, group=None, fkey=None):
     for k in known:
         if k.get("status", "open") != "open" or k.get("property") != prop:
             continue
         if re.fullmatch(k["obligation"], _strip_line(gname)):
+            # optional narrowing to the failing call site: EVERY failing instance must sit on a source line that
+            # contains the recorded statement text (another statement failing the same obligation is not masked)
+            need = k.get("source_contains")
+            if need and group is not None and re.search(k.get("source_contains_for", ".*"), _strip_line(gname)):
+                lines = group.get("refuted_lines") or []
+                if not lines or not all(need in _source_line(fkey or "", ln) for ln in lines):
+                    continue
             return k
     return None
 
@@ -180,7 +195,7 @@ def finish(prop, tier, seed, reg, repo, results, extra, t0):
     violations = []
     known_hits = []
     for fkey, n, g in refuted:
-        k = match_known(prop, n, g.get("witness"), known)
+        k = match_known(prop, n, g.get("witness"), known, group=g, fkey=fkey)
         if k is not None:
             known_hits.append((n, k))
             continue
